@@ -274,6 +274,10 @@ def judge_op(spec, codec, scenario, op, evs, probes):
         return V("initial_call", f"first attempt went to {attempts[0]['path'] if attempts else None}")
     ch0 = attempts[0]["ch"]
     polls = attempts[1:]
+    if not rest:
+        from .. import oracle
+        if codec.parse(m["input"], bytes.fromhex(attempts[0]["reqs"][0])) != oracle.expected_request(codec, m, op):
+            return V("initial_request", "the request sent by the LRO method differs from the caller's request")
     outcome = next((e for e in evs if e["k"] in ("return", "raise", "cancelled")), None)
     if outcome is None:
         return V("no_outcome", "the LRO call neither returned nor raised")
